@@ -32,19 +32,8 @@ Fixpoint omap {A B} (f : A -> option B) (l : list A) : option (list B) :=
   end.
 
 (* ------------------------------------------------------------------ OsuNoteMeta *)
-(* binary64 value of the Python expression 512 / keys for keys = 1..18 (the divisor that
-   x_axis_to_column really uses); re-checked against the live interpreter by a Tables obligation *)
-Definition colw_table : list Q :=
-  [(512#1); (256#1); (6004799503160661#35184372088832); (128#1); (3602879701896397#35184372088832);
-   (6004799503160661#70368744177664); (2573485501354569#35184372088832); (64#1);
-   (2001599834386887#35184372088832); (3602879701896397#70368744177664); (3275345183542179#70368744177664);
-   (6004799503160661#140737488355328); (1385722962267845#35184372088832); (2573485501354569#70368744177664);
-   (4803839602528529#140737488355328); (32#1); (4238682002231055#140737488355328);
-   (2001599834386887#70368744177664)]%Q.
-Definition colw (k : Z) : Q := nth (Z.to_nat (k - 1)) colw_table (512 / inject_Z k)%Q.
-
-(* max(min(int(x_axis // (512 / keys)), keys - 1), 0)        (keys >= 1) *)
-Definition x_to_col (x k : Z) : Z := Z.max (Z.min (Qfloor (inject_Z x / colw k)) (k - 1)) 0.
+(* max(min(int(x_axis * keys // 512), keys - 1), 0): integer floor division (x and keys are ints) *)
+Definition x_to_col (x k : Z) : Z := Z.max (Z.min (x * k / 512) (k - 1)) 0.
 (* int(floor(((512.0 * column) + 256.0) / keys)) *)
 Definition col_to_x (c k : Z) : Z := Qfloor (inject_Z (512 * c + 256) / inject_Z k).
 
@@ -70,7 +59,6 @@ Definition read_hit (s : text) (k : Z) : option note :=
   let scl := split_on COLON (last_text sc) in
   do f2 <- nth_text sc 2; do off <- py_float f2;
   do f0 <- nth_text sc 0; do x <- py_int f0;
-  if k =? 0 then None else                                   (* 512 / keys: ZeroDivisionError *)
   do f4 <- nth_text sc 4; do hs <- py_int f4;
   do c0 <- nth_text scl 0; do ss <- py_int c0;
   do c1 <- nth_text scl 1; do ads <- py_int c1;
@@ -86,7 +74,6 @@ Definition read_hold (s : text) (k : Z) : option note :=
   let scl := split_on COLON (last_text sc) in
   do f2 <- nth_text sc 2; do off <- py_float f2;
   do f0 <- nth_text sc 0; do x <- py_int f0;
-  if k =? 0 then None else
   do c0 <- nth_text scl 0; do en <- py_float c0;
   do f4 <- nth_text sc 4; do hs <- py_int f4;
   do c1 <- nth_text scl 1; do ss <- py_int c1;
@@ -199,9 +186,9 @@ Definition SAMPLE_MARK := t "//Storyboard Sound Samples".
 (* one iteration of the loop of _read_meta_string_list; [all] = every line given, [e] = index *)
 Definition read_meta_line (all : list text) (e : nat) (line : text) (st : mstate) : option mstate :=
   if negb (nonempty line) then Some st else
-  let ps := split_on COLON line in
+  let ps := split_once COLON line in
   let k := hd [] ps in
-  let v := nth_text ps 1 in                                  (* k, *v = line.split(":"); v = v[0] *)
+  let v := nth_text ps 1 in                                  (* k, *v = line.split(":", 1); v = v[0] *)
   do st1 <- match find_key k meta_keys 0 with
             | Some (i, kd) => do mv <- read_meta_value kd v;
                               Some (mkMS (set_nth (ms_meta st) i mv) (ms_bg st) (ms_samples st))
